@@ -123,11 +123,89 @@ def final_content(case):
     return rows, ws
 
 
+# ---- labelled containers: labels that are not 0..n-1 in order
+# A label specification is plain JSON: {"kind": "range" | "reversed"} (determined by the length), {"kind": "offset", "start": s}
+# (RangeIndex(s, s + n)), or {"kind": k, "labels": [...]} with k = shuffled / gaps / float / strings / dup (a pandas Index of the
+# labels), multi (a MultiIndex of the (int, str) pairs), datetime (2024-01-01 + that many days).
+LABEL_KINDS = ("range", "reversed", "offset", "shuffled", "gaps", "strings", "dup", "multi", "datetime", "float")
+ENABLE_LABELLED = True      # the whole stream
+
+
+def gen_labels(rng, kind, n):
+    if kind in ("range", "reversed"):
+        return {"kind": kind}
+    if kind == "offset":
+        return {"kind": kind, "start": rng.choice([1, 10, 100, -5])}
+    if kind == "shuffled":
+        labels = list(range(n))
+        while n > 1 and labels == list(range(n)):
+            rng.shuffle(labels)
+    elif kind == "gaps":          # what is left of a longer frame after a filter
+        labels = sorted(rng.sample(range(3 * n + 2), n))
+    elif kind == "float":
+        labels = [v / 2 for v in rng.sample(range(-n, 2 * n), n)]
+    elif kind == "strings":
+        labels = [f"r{i}" for i in range(n)]
+        rng.shuffle(labels)
+    elif kind == "dup":
+        labels = [rng.randrange(max(1, n // 2)) for _ in range(n)]
+        if n > 1:
+            labels[rng.randrange(1, n)] = labels[0]
+    elif kind == "multi":
+        labels = [[i // 3, "abc"[i % 3]] for i in range(n)]
+        rng.shuffle(labels)
+    elif kind == "datetime":
+        labels = rng.sample(range(3 * n + 2), n)
+    else:
+        raise ValueError(kind)
+    return {"kind": kind, "labels": labels}
+
+
+def explicit_labels(spec, n):
+    """(kind, labels) of a specification with the labels written out"""
+    k = spec["kind"]
+    if k == "range":
+        return "shuffled", list(range(n))
+    if k == "reversed":
+        return "shuffled", list(range(n - 1, -1, -1))
+    if k == "offset":
+        return "gaps", list(range(spec["start"], spec["start"] + n))
+    return k, list(spec["labels"])
+
+
+def build_index(spec, n, name=None):
+    import pandas as pd
+    k = spec["kind"]
+    if k == "range":
+        ix = pd.RangeIndex(n)
+    elif k == "reversed":
+        ix = pd.RangeIndex(n - 1, -1, -1)
+    elif k == "offset":
+        ix = pd.RangeIndex(spec["start"], spec["start"] + n)
+    elif k == "multi":
+        return pd.MultiIndex.from_tuples([tuple(l) for l in spec["labels"]], names=["g", "k"])
+    elif k == "datetime":
+        ix = pd.DatetimeIndex([pd.Timestamp("2024-01-01") + pd.Timedelta(days=int(v)) for v in spec["labels"]])
+    else:
+        ix = pd.Index(list(spec["labels"]))
+    if len(ix) != n:
+        raise AssertionError(f"harness: {len(ix)} labels for {n} rows")
+    return ix if name is None else ix.rename(name)
+
+
+def drop_label(spec, j):
+    if "labels" in spec:
+        del spec["labels"][j]
+
+
 class C17:
     ID = "C17"
-    N_QUICK = 170
-    N_THOROUGH = 2500
-    N_SEARCH = 120
+    # the cases up to N_BASE[tier] are the older streams, exactly as they were; the cases after them are the 'labelled' stream
+    N_BASE = {"quick": 170, "thorough": 2500, "search": 120}
+    N_LABELLED = {"quick": 24, "thorough": 350, "search": 20}
+    N_QUICK = N_BASE["quick"] + (N_LABELLED["quick"] if ENABLE_LABELLED else 0)
+    N_THOROUGH = N_BASE["thorough"] + (N_LABELLED["thorough"] if ENABLE_LABELLED else 0)
+    N_SEARCH = N_BASE["search"] + (N_LABELLED["search"] if ENABLE_LABELLED else 0)
     RULE = ("one numeric data set (with / without NaN, weights absent / int / float, 1-D or (n, d) with d = 2..3) over explicit bins, "
             "entered as numpy array (reference), list, tuple, (name, values) tuple, iterator, 2-D / 3-D C- and Fortran-ordered arrays, "
             "pandas Series (named) and .physt accessor (h1 / histogram / cut), pandas DataFrame and accessors (h1 / h2 / histogram, with and "
@@ -149,12 +227,24 @@ class C17:
             "(r = 1..4, c = 1..6, with its transpose; floats or ints, NaN, weights nested alike or as array) as tuple / list of tuples / "
             "lists / arrays / a mixture to h1 (also as (str name, values), which alone names the histogram), h (c = 2, 3), h2 (two rows; "
             "two nested tables), h3 (three arrays) = the same call on np.asarray(container); ragged tables and (number, values) only "
-            "recorded. non-trivial = at least one entry inside a bin; distinct = case hash")
+            "recorded; after these, 24 (quick) / 350 (thorough) cases of labelled containers (stream:labelled): one data set (d = 1..3, n = "
+            "3..16, floats or ints, NaN, weights = distinct powers of two per position, int64 / float64, absent in 1 of 8) as pandas Series / "
+            "DataFrame whose labels are NOT 0..n-1 in order (reversed / shifted RangeIndex, shuffled, filtered with gaps, float, string, "
+            "duplicated labels, MultiIndex, DatetimeIndex; a named index) with weights as a pandas Series carrying OTHER labels (independent "
+            "kind, the same labels in another order, or the same index), a name colliding with a column of the frame, nullable dtypes "
+            "(Int64 / Float64, pd.NA for NaN; nullable weights without NA), through physt.h1 / h / h2 / h3, Series.physt.h1 / histogram, "
+            "DataFrame.physt.h1 (external weights, weights='column', weights = column of another frame) / histogram / h2, a column sorted "
+            "or filtered while the weights are numbered afresh, two coordinate Series with different labels to h2, polars Series / frames "
+            "and dask arrays with labelled pandas weights, xarray DataArrays with coordinates (data and weights; only recorded whether "
+            "taken): every spelling = the call on series.to_numpy() / weights.to_numpy() (paired BY POSITION), and that reference = the "
+            "Fraction sums of the positional (row, weight) pairs. non-trivial = at least one entry inside a bin; distinct = case hash")
     EXTRA_TRUST = ["pandas, polars, dask and xarray conversions are exercised, not modelled"]
     ASSUMPTIONS = ["the reference is physt's own result on the equivalent numpy array, itself tied to the model by C01 / C02"]
 
     # ------------------------------------------------------------------ generators
     def gen_case(self, rng, k, tier):
+        if ENABLE_LABELLED and k >= self.N_BASE.get(tier, 10**9):
+            return self.gen_labelled(rng, k - self.N_BASE[tier])
         if k % 8 == 3:
             return self.gen_mutate(rng)
         if k % 8 == 6:
@@ -302,8 +392,83 @@ class C17:
                 "dropna": rng.random() < 0.85, "open": opened,
                 "tags": ["d:1", "kind:nested", f"nested:{r}x{c}", "nested:ints" if ints else "nested:floats"] + [f"open:{t}" for t in opened]}
 
+    # ---- labelled containers (pandas labels that are not 0..n-1 in order; data and weights labelled differently)
+    def gen_labelled(self, rng, slot=None):
+        """slot: position in the stream -- the first ten cases take the ten kinds of labels for the data in turn, the next ten for
+        the weights (so that every run, however short, has met each kind on either side); everything else comes from rng"""
+        d = rng.choice([1, 1, 1, 1, 2, 2, 3])
+        n = rng.choice([3, 5, 6, 8, 12, 16])
+        ints = rng.random() < 0.25
+        nullable = rng.random() < 0.25
+        binning, axes_pairs = self._gen_axes(rng, d)
+        rows = self._gen_rows(rng, axes_pairs, n, ints, rng.choice([0, 0.15]))
+        if ints and nullable and rng.random() < 0.6:
+            for r in rows:
+                for j in range(d):
+                    if rng.random() < 0.12 / d:
+                        r[j] = None
+        # weights that make every (value, weight) pair recognisable in the sums: distinct powers of two, in random order
+        exps = list(range(n))
+        rng.shuffle(exps)
+        wmode = rng.choice(["int", "int", "int", "float", "float", "float", "float", "none"])
+        if wmode == "none":
+            ws, wk = None, None
+        elif wmode == "int":
+            ws, wk = [2 ** e for e in exps], "int64"
+        else:
+            ws, wk = [2.0 ** (e - 4) for e in exps], "float64"
+        # labels: of the data, and (another kind / the same labels in another order / the very same index) of the weights
+        dkind = rng.choice(LABEL_KINDS + ("range", "shuffled", "gaps", "reversed"))
+        relation = rng.choice(["independent"] * 5 + ["permuted"] * 4 + ["same"])
+        wkind_l = rng.choice(LABEL_KINDS + ("range",) * 6)            # most often: weights numbered afresh
+        if slot is not None and 0 <= slot < len(LABEL_KINDS):
+            dkind = LABEL_KINDS[slot]
+        elif slot is not None and slot < 2 * len(LABEL_KINDS):
+            relation, wkind_l = "independent", LABEL_KINDS[slot - len(LABEL_KINDS)]
+        dl = gen_labels(rng, dkind, n)
+        if relation == "independent":
+            if dkind == wkind_l == "range":
+                dkind = rng.choice(["shuffled", "reversed", "gaps", "strings"])
+                dl = gen_labels(rng, dkind, n)
+            wl = gen_labels(rng, wkind_l, n)
+        elif relation == "permuted":
+            kind, labels = explicit_labels(dl, n)
+            perm = list(labels)
+            for _ in range(5):
+                rng.shuffle(perm)
+                if perm != labels:
+                    break
+            wl = {"kind": kind, "labels": perm}
+        else:
+            wl = copy.deepcopy(dl)
+        if d == 1:
+            dname = rng.choice(["col0", "col0", "x", "w", "weights"])
+            names = [dname]
+        else:
+            names = [f"col{i}" for i in range(d)]
+        wcol = "w" if names[0] != "w" else "weights"
+        keep = [rng.random() < 0.7 for _ in range(n)]
+        keep[0] = True
+        keep[rng.randrange(1, n)] = False
+        opened = open_triggers()
+        return {"kind": "labelled", "d": d, "binning": binning, "data": rows, "ints": ints, "weights": ws, "wkind": wk,
+                "ddtype": None if not nullable else ("Int64" if ints else "Float64"), "wnullable": ws is not None and rng.random() < 0.2,
+                "dlabels": dl, "wlabels": wl, "relation": relation, "index_name": rng.choice([None, None, "idx", wcol]),
+                "names": names, "wcol": wcol, "wname": rng.choice([None, wcol, names[0], "other"]),
+                "dropna": rng.random() < 0.85, "keep": keep,
+                "extra": {"sub": rng.sample(range(d), 2) if d >= 2 else [0], "chunk": rng.choice([1, 2, 3, 7, n]),
+                          "wchunk": rng.choice([1, 2, 5, n]), "colchunk": rng.choice([1, d])},
+                "open": opened, "tags": self._labelled_tags(d, dl, wl, relation) + [f"open:{t}" for t in opened]}
+
+    @staticmethod
+    def _labelled_tags(d, dl, wl, relation):
+        return [f"d:{d}", "kind:labelled", "stream:labelled", f"labels:data:{dl['kind']}", f"labels:weights:{wl['kind']}",
+                f"labels:relation:{relation}"]
+
     # ------------------------------------------------------------------ the implementation
     def run_impl(self, case):
+        if case["kind"] == "labelled":
+            return self.run_labelled(case)
         if case["kind"] == "dask":
             return self.run_dask(case)
         if case["kind"] == "mutate":
@@ -1191,10 +1356,210 @@ class C17:
                 outcome("tuple_number_values", lambda: h1((table[0][0], tuple(table[-1])), b1(), **kw))
         return {"outs": out, "log": log, "why": why}
 
+    # ------------------------------------------------------------------ labelled containers
+    def run_labelled(self, case):
+        """pandas Series / DataFrames whose labels are not 0..n-1 in order, weights as a pandas Series with other labels: every
+        spelling is paired with the same call on the numpy arrays of the values (series.to_numpy(), weights.to_numpy()), i.e. values
+        and weights are paired by position. Every container is built OUTSIDE the recorded calls (an error of pandas / polars /
+        xarray / dask while building is a harness problem, not a refusal by physt), and its positional content is checked."""
+        import dask.array as da
+        import pandas as pd
+        import polars as pl
+        import xarray as xr
+        from physt import h, h1, h2, h3
+        import physt.compat.pandas  # noqa: F401
+        import physt.compat.polars  # noqa: F401
+        d, names, dropna, n = case["d"], case["names"], case["dropna"], len(case["data"])
+        extra, wcol = case["extra"], case["wcol"]
+        opened = set(case.get("open", []))
+        has_none = any(v is None for r in case["data"] for v in r)
+        dt = int if case["ints"] and not has_none else float
+        A = np.array([[np.nan if v is None else v for v in r] for r in case["data"]], dtype=dt).reshape(n, d)
+        ws = None if case["weights"] is None else np.array(case["weights"], dtype=case["wkind"])
+        ddt, wnull = case["ddtype"], case["wnullable"]
+        DI = build_index(case["dlabels"], n, case.get("index_name"))
+        WI = build_index(case["wlabels"], n)
+        kw = dict(dropna=dropna)
+        invalid = has_none and not dropna
+        out = {"results": {}, "refusals": {}, "pairs": {}, "outcomes": {}}
+        log, why = [], {}
+
+        def mkb():
+            return [impl1.mk_binning(b) for b in case["binning"]]
+
+        def run(name, f, snap):
+            try:
+                return snap(f())
+            except Exception as e:
+                log.append(f"{name}: {type(e).__name__}: {e}"[:160])
+                return "REFUSED"
+
+        def P(name, f, ref, snap, names=None, must=True):
+            name = "labelled_" + name
+            out["pairs"][name] = {"got": run(name, f, snap), "ref": ref, "names": names, "must": must, "invalid": invalid}
+
+        def same_content(got, exp, what):
+            got = np.asarray(got, dtype=float).reshape(np.asarray(exp).shape)
+            if not np.array_equal(got, np.asarray(exp, dtype=float), equal_nan=True):
+                raise AssertionError(f"harness: {what} holds {got.tolist()}, expected {np.asarray(exp).tolist()}")
+
+        def nullable_w(s):
+            return s.astype("Int64" if ws.dtype.kind == "i" else "Float64") if wnull else s
+
+        def frame(index):
+            """the data as a frame with these labels (nullable columns on request)"""
+            df = pd.DataFrame(A, columns=names)
+            df.index = index
+            return df.astype(ddt) if ddt else df
+
+        def values_of(obj):
+            return obj.to_numpy(dtype=float, na_value=np.nan)
+        # a nullable column with pd.NA: whether NA counts as a NaN entry (dropped) or as a null (refused) is not said -- an accepted
+        # call must give the histogram of the array with NaN there
+        pm = not (ddt is not None and has_none)
+        df = frame(DI)
+        same_content(values_of(df), A, "the labelled frame")
+        W = None if ws is None else nullable_w(pd.Series(ws, index=WI, name=case["wname"]))
+        if W is not None:
+            same_content(values_of(W), ws, "the labelled weights")
+        # a column sorted / a frame filtered (the labels travel with the rows), the weights numbered afresh
+        dfp = df.assign(**{"_pos": np.arange(n)})
+        dfs = dfp.sort_values(names[0]).drop(columns="_pos")
+        order = dfp.sort_values(names[0])["_pos"].to_numpy()
+        same_content(values_of(dfs), A[order], "the sorted frame")
+        keep = np.array(case["keep"], dtype=bool)
+        dff = df[keep]
+        same_content(values_of(dff), A[keep], "the filtered frame")
+        Wf = None if ws is None else nullable_w(pd.Series(ws[keep], name=case["wname"]))
+        # xarray: the labels as coordinates (a MultiIndex is left out: positions backwards instead)
+        xcoord = np.arange(n)[::-1] if isinstance(DI, pd.MultiIndex) else np.asarray(DI)
+        wcoord = np.arange(n)[::-1] if isinstance(WI, pd.MultiIndex) else np.asarray(WI)
+        xw = None if ws is None else xr.DataArray(ws, dims="i", coords={"i": wcoord}, name="w")
+        dw = None if ws is None else da.from_array(ws, chunks=extra["wchunk"])
+        polars_w = ws is not None and (ws.dtype.kind == "f" or "polars_int_weights" in opened)
+        pw = pl.Series("w", ws) if polars_w else None
+        if d == 1:
+            x, col = A[:, 0], names[0]
+            S = df[col]
+
+            def b():
+                return mkb()[0]
+            ref = run("ref", lambda: h1(x, b(), weights=ws, **kw), s1)
+            out["results"]["array"] = ref
+            decoy = np.ones(n) if ws is None else ws[::-1].copy()
+            dfd = df.assign(**{wcol: decoy})            # a column called like the weights, holding something else
+            P("facade", lambda: h1(S, b(), weights=W, **kw), ref, s1, col, pm)
+            P("series_accessor_h1", lambda: S.physt.h1(b(), weights=W, **kw), ref, s1, col, pm)
+            P("series_accessor_histogram", lambda: S.physt.histogram(b(), weights=W, **kw), ref, s1, col, pm)
+            P("frame_accessor_h1_external", lambda: dfd.physt.h1(col, b(), weights=W, **kw), ref, s1, col, pm)
+            P("frame_accessor_histogram_external", lambda: dfd.physt.histogram(col, b(), weights=W, **kw), ref, s1, col, pm)
+            P("frame1_accessor_h1_nocolumn", lambda: df.physt.h1(bins=b(), weights=W, **kw), ref, s1, col, pm)
+            if "tuple_form_args" in opened or (W is None and dropna):
+                P("tuple_form_series", lambda: h1(("grp", S), b(), weights=W, **kw), ref, s1, col, pm)
+            if ws is not None:
+                dfw = df.assign(**{wcol: nullable_w(pd.Series(ws, index=DI))})
+                same_content(values_of(dfw[wcol]), ws, "the weight column")
+                other = pd.DataFrame({wcol: ws, col: np.zeros(n)}, index=WI)
+                ow = nullable_w(other[wcol])
+                P("frame_accessor_h1_column", lambda: dfw.physt.h1(col, b(), weights=wcol, **kw), ref, s1, col, pm)
+                P("facade_array_weights", lambda: h1(S, b(), weights=ws, **kw), ref, s1, col, pm)
+                P("series_accessor_array_weights", lambda: S.physt.h1(b(), weights=ws, **kw), ref, s1, col, pm)
+                P("array_series_weights", lambda: h1(x, b(), weights=W, **kw), ref, s1)
+                P("list_series_weights", lambda: h1(x.tolist(), b(), weights=W, **kw), ref, s1)
+                P("series_accessor_weights_column_of_other_frame", lambda: S.physt.h1(b(), weights=ow, **kw), ref, s1, col, pm)
+                P("frame_accessor_h1_weights_column_of_other_frame", lambda: dfd.physt.h1(col, b(), weights=ow, **kw), ref, s1, col, pm)
+                # sorted / filtered data: the same rows in another order keep their weights when these come from the same frame,
+                # and are paired by position with weights that were numbered afresh
+                dfws = dfw.iloc[order]
+                ref_sorted = run("ref_sorted", lambda: h1(x[order], b(), weights=ws, **kw), s1)
+                ref_moved = run("ref_moved", lambda: h1(x[order], b(), weights=ws[order], **kw), s1)
+                ref_kept = run("ref_kept", lambda: h1(x[keep], b(), weights=ws[keep], **kw), s1)
+                Ss, Sf = dfs[col], dff[col]
+                P("sorted_frame_weights_column", lambda: dfws.physt.h1(col, b(), weights=wcol, **kw), ref_moved, s1, col, pm)
+                P("sorted_series_fresh_weights.facade", lambda: h1(Ss, b(), weights=W, **kw), ref_sorted, s1, col, pm)
+                P("sorted_series_fresh_weights.accessor", lambda: Ss.physt.h1(b(), weights=W, **kw), ref_sorted, s1, col, pm)
+                P("sorted_frame_fresh_weights.accessor", lambda: dfs.physt.h1(col, b(), weights=W, **kw), ref_sorted, s1, col, pm)
+                P("filtered_series_fresh_weights.facade", lambda: h1(Sf, b(), weights=Wf, **kw), ref_kept, s1, col, pm)
+                P("filtered_series_fresh_weights.accessor", lambda: Sf.physt.h1(b(), weights=Wf, **kw), ref_kept, s1, col, pm)
+                P("filtered_frame_fresh_weights.accessor", lambda: dff.physt.h1(col, b(), weights=Wf, **kw), ref_kept, s1, col, pm)
+                P("filtered_frame_array_weights.accessor", lambda: dff.physt.h1(col, b(), weights=ws[keep], **kw), ref_kept, s1, col, pm)
+            # polars (no labels: positional by construction), with labelled pandas weights and the other way round
+            pser = pl.Series(col, x)
+            P("polars_series_pandas_weights", lambda: h1(pser, b(), weights=W, **kw), ref, s1, col)
+            P("polars_accessor_pandas_weights", lambda: pser.physt.h1(b(), weights=W, **kw), ref, s1, col)
+            if pw is not None:
+                P("series_accessor_polars_weights", lambda: S.physt.h1(b(), weights=pw, **kw), ref, s1, col, pm)
+            # dask arrays with labelled weights; dask / xarray weights and xarray data are not among the containers of the
+            # property: recorded, an accepted call must give the array's histogram
+            darr = da.from_array(x, chunks=extra["chunk"])
+            P("dask_array_pandas_weights", lambda: h1(darr, b(), weights=W, **kw), ref, s1)
+            xa = xr.DataArray(x, dims="i", coords={"i": xcoord}, name=col)
+            P("xarray_h1", lambda: h1(xa, b(), weights=xw, **kw), ref, s1, None, False)
+            if ws is not None:
+                P("xarray_pandas_weights", lambda: h1(xa, b(), weights=W, **kw), ref, s1, None, False)
+                P("series_accessor_xarray_weights", lambda: S.physt.h1(b(), weights=xw, **kw), ref, s1, col, False)
+                P("series_accessor_dask_weights", lambda: S.physt.h1(b(), weights=dw, **kw), ref, s1, col, False)
+        else:
+            sub = extra["sub"]
+            snames = [names[i] for i in sub]
+
+            def subb():
+                bb = mkb()
+                return [bb[i] for i in sub]
+            ref = run("ref", lambda: h(A, mkb(), weights=ws, **kw), sn)
+            out["results"]["array"] = ref
+            ref_sub = run("ref_sub", lambda: h(A[:, sub], subb(), weights=ws, **kw), sn)
+            P("h_frame", lambda: h(df, mkb(), weights=W, **kw), ref, sn, names, pm)
+            P("frame_accessor_histogram", lambda: df.physt.histogram(None, mkb(), weights=W, **kw), ref, sn, names, pm)
+            P("frame_accessor_histogram_subset", lambda: df.physt.histogram(snames, subb(), weights=W, **kw), ref_sub, sn, snames, pm)
+            P("frame_accessor_h2_subset", lambda: df.physt.h2(snames[0], snames[1], subb(), weights=W, **kw), ref_sub, sn, snames, pm)
+            S0, S1 = df[snames[0]], df[snames[1]]
+            S1o = pd.Series(A[:, sub[1]], index=WI, name=snames[1])         # the second coordinate with the labels of the weights
+            P("h2_series", lambda: h2(S0, S1, subb(), weights=W, **kw), ref_sub, sn, snames, pm)
+            P("h2_series_differently_labelled", lambda: h2(S0, S1o, subb(), weights=W, **kw), ref_sub, sn, snames, pm)
+            P("h2_series_and_array", lambda: h2(S0, A[:, sub[1]], subb(), weights=W, **kw), ref_sub, sn, None, pm)
+            if d == 2:
+                P("frame_accessor_h2_nocolumns", lambda: df.physt.h2(bins=mkb(), weights=W, **kw), ref, sn, names, pm)
+            if d == 3:
+                P("h3_frame", lambda: h3(df, mkb(), weights=W, **kw), ref, sn, names, pm)
+            if ws is not None:
+                P("h_frame_array_weights", lambda: h(df, mkb(), weights=ws, **kw), ref, sn, names, pm)
+                P("h_array_series_weights", lambda: h(A, mkb(), weights=W, **kw), ref, sn)
+                ref_sorted = run("ref_sorted", lambda: h(A[order], mkb(), weights=ws, **kw), sn)
+                ref_kept = run("ref_kept", lambda: h(A[keep], mkb(), weights=ws[keep], **kw), sn)
+                P("sorted_frame_fresh_weights.facade", lambda: h(dfs, mkb(), weights=W, **kw), ref_sorted, sn, names, pm)
+                P("sorted_frame_fresh_weights.accessor", lambda: dfs.physt.histogram(None, mkb(), weights=W, **kw), ref_sorted, sn, names, pm)
+                P("filtered_frame_fresh_weights.facade", lambda: h(dff, mkb(), weights=Wf, **kw), ref_kept, sn, names, pm)
+                P("filtered_frame_fresh_weights.accessor", lambda: dff.physt.histogram(None, mkb(), weights=Wf, **kw), ref_kept, sn, names, pm)
+            pdf = pl.DataFrame({nm: A[:, j] for j, nm in enumerate(names)})
+            P("polars_frame_pandas_weights", lambda: h(pdf, mkb(), weights=W, **kw), ref, sn, names)
+            P("polars_accessor_pandas_weights", lambda: pdf.physt.h(bins=mkb(), weights=W, **kw), ref, sn, names)
+            if pw is not None:
+                P("h_frame_polars_weights", lambda: h(df, mkb(), weights=pw, **kw), ref, sn, names, pm)
+            darr = da.from_array(A, chunks=(extra["chunk"], extra["colchunk"]))
+            P("dask_array_pandas_weights", lambda: h(darr, mkb(), weights=W, **kw), ref, sn)
+            d0, d1 = da.from_array(A[:, sub[0]], chunks=extra["chunk"]), da.from_array(A[:, sub[1]], chunks=n)
+            P("dask_columns_h2_pandas_weights", lambda: h2(d0, d1, subb(), weights=W, **kw), ref_sub, sn)
+            xA = xr.DataArray(A, dims=("i", "c"), coords={"i": xcoord, "c": names}, name="table")
+            P("xarray_h", lambda: h(xA, mkb(), weights=xw, **kw), ref, sn, None, False)
+            if ws is not None:
+                P("h_frame_xarray_weights", lambda: h(df, mkb(), weights=xw, **kw), ref, sn, names, False)
+                P("h_frame_dask_weights", lambda: h(df, mkb(), weights=dw, **kw), ref, sn, names, False)
+        # no call may have changed the containers handed to it (values and labels)
+        out["touched"] = []
+        df0 = frame(DI)
+        if not df.equals(df0) or not df.index.equals(df0.index):
+            out["touched"].append(f"the labelled frame holds {values_of(df).tolist()} under {list(df.index)[:8]} after the calls"[:300])
+        if W is not None:
+            W0 = nullable_w(pd.Series(ws, index=WI, name=case["wname"]))
+            if not W.equals(W0) or not W.index.equals(W0.index):
+                out["touched"].append(f"the labelled weights hold {values_of(W).tolist()} under {list(W.index)[:8]} after the calls"[:300])
+        return {"outs": out, "log": log, "why": why}
+
     def model_case(self, case, io):
         """the reference call (plain numpy array) as a construction of the model; for the 'mutate' stream the array built from the
         content after the last change, for the 'nested' stream the table read row by row"""
-        if case["kind"] not in ("containers", "mutate", "nested"):
+        if case["kind"] not in ("containers", "mutate", "nested", "labelled"):
             return None
         ref = io["outs"]["results"].get("array")
         if ref == "REFUSED" or ref is None:
@@ -1268,6 +1633,28 @@ class C17:
                 if gn != p["names"]:
                     fails.append(f"axis_name: {name} has axis name(s) {gn!r}, expected {p['names']!r}")
 
+    @staticmethod
+    def _positional_sums(case, ref):
+        """the reference (numpy arrays) of a 'labelled' case against exact sums over the rows: row i counts with weight i"""
+        has_nan = any(v is None for r in case["data"] for v in r)
+        if has_nan and not case["dropna"]:
+            return ["accepted_invalid: NaN accepted with dropna=False"] if isinstance(ref, dict) else []
+        if not isinstance(ref, dict):
+            return ["refused_valid: the reference call on the numpy arrays was refused"]
+        bins = [ref["bins"]] if case["d"] == 1 else ref["bins"]
+        axes = [([(Fraction(l), Fraction(r)) for l, r in b], spec.get("ire", True)) for b, spec in zip(bins, case["binning"])]
+        cells, _ = gennd.brute_cells(axes, case["data"], case["weights"])
+        shape = [len(a[0]) for a in axes]
+        if len(ref["freq"]) != int(np.prod(shape)):
+            return [f"shape: {len(ref['freq'])} cells for bins of shape {shape}"]
+        for pos, idx in enumerate(gennd.unravel(shape)):
+            f, e = cells.get(idx, (Fraction(0), Fraction(0)))
+            if Fraction(ref["freq"][pos]) != f:
+                return [f"pairing: cell {idx} of the numpy arrays' histogram holds {ref['freq'][pos]}, the (row, weight) pairs taken by position give {f}"]
+            if Fraction(ref["err2"][pos]) != e:
+                return [f"pairing: cell {idx} of the numpy arrays' histogram has errors2 {ref['err2'][pos]}, the squared weights taken by position give {e}"]
+        return []
+
     def oracle(self, case, io):
         o = io["outs"]
         fails = []
@@ -1277,6 +1664,16 @@ class C17:
                 if r != "REFUSED":
                     fails.append(f"accepted_invalid: {name} was accepted")
             return fails[:6]
+        if case["kind"] == "labelled":
+            # labels do not take part: every spelling gives the histogram of the numpy arrays of the values and of the weights
+            # (paired by position), and that histogram is the sum over the positional (row, weight) pairs
+            for t in o.get("touched", []):
+                fails.append("container_changed: a call changed the container handed to it: " + t)
+            self._pairs(o, io["log"], fails)
+            fails += self._positional_sums(case, o["results"].get("array"))
+            where = (f" [labels of the data: {case['dlabels']['kind']}, of the weights: {case['wlabels']['kind']} ({case['relation']}); "
+                     "values and weights are paired by position]")
+            return [f + where for f in fails[:6]]
         if case["kind"] in ("mutate", "nested"):
             # the same container again after an in-place change / a nested container: the histogram of the numpy array with the
             # content the container has at the moment of the call (axis names from the Series / columns; the histogram's name
@@ -1390,7 +1787,13 @@ class C17:
         t = list(case["tags"])
         forms = [k for k, v in o["results"].items() if k not in ("array", "ref_hist", "h2_ref_noweights")] + list(o["pairs"])
         t += [f"containers:{len(forms)}"] + (["weights"] if case["weights"] and case["kind"] == "containers" else [])
-        if case["kind"] in ("mutate", "nested"):
+        if case["kind"] == "labelled":
+            t += [f"container:{k}" for k in forms]
+            t += ["labelled:weights" if case["weights"] else "labelled:no_weights"]
+            t += [f"labelled:dtype:{case['ddtype']}"] if case["ddtype"] else []
+            t += ["labelled:nullable_weights"] if case["wnullable"] else []
+            t += ["labelled:nan"] if any(v is None for r in case["data"] for v in r) else []
+        elif case["kind"] in ("mutate", "nested"):
             t += sorted({f"container:{k.split(':')[0]}" for k in forms})      # one per container and form, not per call
             if case["weights"]:
                 t.append(f"{case['kind']}:weights")
@@ -1412,10 +1815,73 @@ class C17:
     def matches_known(self, finding, case):
         return False
 
+    def _as_labelled(self, case, dl, wl, relation="independent"):
+        """the data of a 'containers' / 'labelled' case under these labels (weights: distinct powers of two by position)"""
+        n, d = len(case["data"]), case["d"]
+        c = {"kind": "labelled", "d": d, "binning": copy.deepcopy(case["binning"]), "data": copy.deepcopy(case["data"]),
+             "ints": case.get("ints", False), "weights": [2 ** i for i in range(n)], "wkind": "int64", "ddtype": case.get("ddtype"),
+             "wnullable": case.get("wnullable", False), "dlabels": dl, "wlabels": wl, "relation": relation, "index_name": case.get("index_name"),
+             "names": list(case["names"]), "wcol": case.get("wcol", "w"), "wname": case.get("wname"), "dropna": case["dropna"],
+             "keep": case.get("keep", [i % 3 != 1 for i in range(n)]),
+             "extra": {"sub": case.get("extra", {}).get("sub", [0, 1][:max(1, min(d, 2))]), "chunk": case.get("extra", {}).get("chunk", 2),
+                       "wchunk": case.get("extra", {}).get("wchunk", 3), "colchunk": case.get("extra", {}).get("colchunk", 1)},
+             "open": list(case.get("open", []))}
+        if case["kind"] == "labelled" and case["weights"] is not None:
+            c["weights"], c["wkind"] = list(case["weights"]), case["wkind"]
+        c["tags"] = self._labelled_tags(d, dl, wl, relation) + [f"open:{t}" for t in c["open"]]
+        return c
+
     def neighbours(self, case):
-        return []
+        """the same data under other labels (a 'containers' case: as a labelled one)"""
+        if not ENABLE_LABELLED or case.get("kind") not in ("containers", "labelled"):
+            return []
+        n = len(case["data"])
+        if n < 3:
+            return []
+        rot = list(range(1, n)) + [0]
+        specs = [({"kind": "reversed"}, {"kind": "range"}), ({"kind": "shuffled", "labels": rot}, {"kind": "range"}),
+                 ({"kind": "range"}, {"kind": "shuffled", "labels": rot}), ({"kind": "offset", "start": 10}, {"kind": "range"}),
+                 ({"kind": "strings", "labels": [f"r{i}" for i in rot]}, {"kind": "strings", "labels": [f"r{i}" for i in range(n)]}),
+                 ({"kind": "dup", "labels": [i // 2 for i in range(n)]}, {"kind": "gaps", "labels": [2 * i for i in range(n)]})]
+        out = [self._as_labelled(case, copy.deepcopy(dl), copy.deepcopy(wl)) for dl, wl in specs]
+        if case["kind"] == "labelled":
+            out.append(self._as_labelled(case, copy.deepcopy(case["wlabels"]), copy.deepcopy(case["dlabels"]), case["relation"]))
+        return out
 
     def shrink_candidates(self, case):
+        if case["kind"] == "labelled":
+            # fewer rows (each with its weight, its two labels and its filter flag), plain dtypes, plainer labels
+            n = len(case["data"])
+            for j in range(n):
+                if n <= 3:
+                    break
+                c = copy.deepcopy(case)
+                del c["data"][j]
+                del c["keep"][j]
+                if c["weights"] is not None:
+                    del c["weights"][j]
+                drop_label(c["dlabels"], j)
+                drop_label(c["wlabels"], j)
+                if not any(c["keep"]):
+                    c["keep"][0] = True
+                if all(c["keep"]):
+                    c["keep"][-1] = False
+                for key in ("chunk", "wchunk"):
+                    c["extra"][key] = min(c["extra"][key], n - 1)
+                yield c
+            for key, plain in (("ddtype", None), ("wnullable", False), ("index_name", None), ("wname", None)):
+                if case[key] != plain:
+                    c = copy.deepcopy(case)
+                    c[key] = plain
+                    yield c
+            for key in ("dlabels", "wlabels"):
+                if case[key]["kind"] != "range":
+                    c = copy.deepcopy(case)
+                    c[key] = {"kind": "range"}
+                    c["relation"] = "independent"
+                    c["tags"] = self._labelled_tags(c["d"], c["dlabels"], c["wlabels"], c["relation"]) + [f"open:{t}" for t in c["open"]]
+                    yield c
+            return
         if case["kind"] == "dask":
             n = len(case["data"])
             for j in range(n):
